@@ -485,7 +485,7 @@ package mocrelay
 
 //@ iface (Handler).ServeNostr
 //@   params(h, ctx, send, recv)
-//@   keeps ghost(started), ghost(endcalls), ghost(startctx), ghost(endctx)
+//@   keeps ghost(started), ghost(endcalls), ghost(startctx), ghost(endctx), anychan(error)
 
 //@ func NewRecvEventUniqueFilterMiddleware$2
 //@   serves C18
@@ -1513,6 +1513,7 @@ package mocrelay
 //@   serves C12
 //@   requires relay != nil && conn != nil && limiter != nil && !isnil(recv) && !isnil(send) && refof(recv) != refof(send)
 //@   writes contents(recv), contents(send), ghost(dropped, recv), ghost(dropped, send), ghost(framesRead, conn), ghost(lastTyp, conn), ghost(lastPayload, conn)
+//@   ensures chanclosed(recv) == old(chanclosed(recv))
 //@   ensures[C12] !isnil(result) ==> (g(framesRead, conn) == old(g(framesRead, conn)) && chanbuf(recv) == old(chanbuf(recv)) && chanbuf(send) == old(chanbuf(send)) && g(dropped, recv) == old(g(dropped, recv)) && g(dropped, send) == old(g(dropped, send)))
 //@   ensures[C12] isnil(result) ==> g(framesRead, conn) == old(g(framesRead, conn)) + 1
 //@   ensures[C12] (isnil(result) && frameAccepted(g(lastTyp, conn), g(lastPayload, conn))) ==> (chanbuf(send) == old(chanbuf(send)) && g(dropped, send) == old(g(dropped, send)))
@@ -1524,16 +1525,20 @@ package mocrelay
 //@   ensures chanhead(recv) == old(chanhead(recv)) && chanhead(send) == old(chanhead(send))
 
 //@ func Relay.serveReadLoop
-//@   serves C12
+//@   serves C12 C13
+//@   keeps anychan(error)
+//@   ensures chanclosed(recv) == old(chanclosed(recv))
 //@   requires relay != nil && conn != nil && !isnil(recv) && !isnil(send) && refof(recv) != refof(send)
 //@   ensures[C12] !isnil(result)
 //@   ensures[C12] (len(chanbuf(recv)) - old(len(chanbuf(recv)))) + (g(dropped, recv) - old(g(dropped, recv))) + (len(chanbuf(send)) - old(len(chanbuf(send)))) + (g(dropped, send) - old(g(dropped, send))) == g(framesRead, conn) - old(g(framesRead, conn))
 //@   loop 1
 //@     invariant l != nil
+//@     invariant chanclosed(recv) == old(chanclosed(recv))
 //@     invariant[C12] (len(chanbuf(recv)) - old(len(chanbuf(recv)))) + (g(dropped, recv) - old(g(dropped, recv))) + (len(chanbuf(send)) - old(len(chanbuf(send)))) + (g(dropped, send) - old(g(dropped, send))) == g(framesRead, conn) - old(g(framesRead, conn))
 
 //@ func Relay.serveWriteLoop
 //@   serves C12 C13
+//@   keeps anychan(error)
 //@   requires relay != nil && conn != nil && !isnil(send) && !chanclosed(send) && len(g(wsOutTyp, conn)) == len(g(wsOutData, conn))
 //@   ensures[C12] !isnil(result)
 //@   loop 1
@@ -1748,6 +1753,26 @@ package mocrelay
 //@     invariant[C07] g(dropped, send) > lold(g(dropped, send)) ==> ctxdone(ctx)
 //@     invariant[C07] g(dropped, send) >= lold(g(dropped, send))
 //@     invariant[C07] g(dropped, send) == lold(g(dropped, send)) ==> extendsBy(chanbuf(send), lold(chanbuf(send)), chanbuf(subCh), lold(chanhead(subCh)), chanhead(subCh))
+
+// the three legs of a WebSocket session (reader goroutine, writer goroutine, handler): whichever way a leg ends it
+// cancels the session context (the other legs and the peer are then released); the reader also closes the handler's
+// input. (Which goroutine runs when is not modelled.)
+//@ func Relay.ServeHTTP$1
+//@   serves C13
+//@   requires relay != nil && conn != nil && !isnil(recv) && !isnil(send) && refof(recv) != refof(send) && !chanclosed(recv)
+//@   requires !isnil(errs) && !chanclosed(errs) && len(chanbuf(errs)) < chancap(errs)
+//@   assert @exit: calledcount(cancel) >= 1
+//@   assert @exit: chanclosed(recv)
+//@ func Relay.ServeHTTP$2
+//@   serves C13
+//@   requires relay != nil && conn != nil && !isnil(send) && !chanclosed(send) && len(g(wsOutTyp, conn)) == len(g(wsOutData, conn))
+//@   requires !isnil(errs) && !chanclosed(errs) && len(chanbuf(errs)) < chancap(errs)
+//@   assert @exit: calledcount(cancel) >= 1
+//@ func Relay.ServeHTTP$3
+//@   serves C13
+//@   requires relay != nil
+//@   requires !isnil(errs) && !chanclosed(errs) && len(chanbuf(errs)) < chancap(errs)
+//@   assert @exit: calledcount(cancel) >= 1
 
 // ---------------------------------------------------------------------------------------------
 // C20: HTTP front door
